@@ -13,17 +13,29 @@ Templates == <<
   << O("R", <<0>>, <<A("x", 1, 1, 0, 1)>>), O("R", <<0>>, <<A("y", 1, 1, 0, 1)>>), O("M", <<1>>, <<>>), O("BS", <<1, 2>>, <<A("x", 1, 2, 1, 1), A("y", 2, 1, 0, 1)>>) >>,
   << O("S2", <<0, 2>>, <<A("z", 1, 1, 0, 1)>>), O("MeasureX", <<1>>, <<>>), O("S2", <<2, 0>>, <<A("z", 1, 4, 0, 1)>>), O("P", <<1>>, <<A("w", 5, 1, -2, 1)>>) >>
 >>
-Names == {"r", "phi", "a", "t", "u", "x", "y", "z", "w"}
+\* generated family: every sequence of GenLen operations over {R | 0, R | 1, BS | [0, 1]} with at least two two-mode operations
+\* (dependencies implied by others, wires first touched in different orders after a reordering); operation i carries parameter g<i>
+CONSTANT GenLen
+GenMenu == << [name |-> "R", modes |-> <<0>>], [name |-> "R", modes |-> <<1>>], [name |-> "BS", modes |-> <<0, 1>>] >>
+GenShapes == {f \in [1..GenLen -> 1..3] : Cardinality({i \in 1..GenLen : f[i] = 3}) >= 2}
+GenParam(i) == "g" \o ToString(i)
+GenTemplate(f) == [i \in 1..GenLen |-> O(GenMenu[f[i]].name, GenMenu[f[i]].modes, <<A(GenParam(i), i, 2, i - 3, 4)>>)]
+TemplateIds == {[k |-> "hand", n |-> n, f |-> <<>>] : n \in 1..Len(Templates)} \cup {[k |-> "gen", n |-> 0, f |-> f] : f \in GenShapes}
+TemplateOf(id) == IF id.k = "hand" THEN Templates[id.n] ELSE GenTemplate(id.f)
+GenIdx(p) == CHOOSE i \in 1..GenLen : p = GenParam(i)
+Names == {"r", "phi", "a", "t", "u", "x", "y", "z", "w"} \cup {GenParam(i) : i \in 1..GenLen}
 Env1 == [p \in Names |-> CASE p = "r" -> <<3, 4>> [] p = "phi" -> <<-3, 2>> [] p = "a" -> <<5, 8>> [] p = "t" -> <<1, 4>> [] p = "u" -> <<7, 2>>
-                           [] p = "x" -> <<-1, 8>> [] p = "y" -> <<9, 4>> [] p = "z" -> <<2, 1>> [] p = "w" -> <<-5, 16>>]
+                           [] p = "x" -> <<-1, 8>> [] p = "y" -> <<9, 4>> [] p = "z" -> <<2, 1>> [] p = "w" -> <<-5, 16>>
+                           [] OTHER -> <<2 * GenIdx(p) + 1, 8>>]
 Env2 == [p \in Names |-> CASE p = "r" -> <<-2, 1>> [] p = "phi" -> <<1, 16>> [] p = "a" -> <<-7, 4>> [] p = "t" -> <<3, 1>> [] p = "u" -> <<1, 8>>
-                           [] p = "x" -> <<11, 2>> [] p = "y" -> <<-3, 16>> [] p = "z" -> <<1, 32>> [] p = "w" -> <<4, 1>>]
+                           [] p = "x" -> <<11, 2>> [] p = "y" -> <<-3, 16>> [] p = "z" -> <<1, 32>> [] p = "w" -> <<4, 1>>
+                           [] OTHER -> QNorm(-GenIdx(p), 4)]
 Envs == <<Env1, Env2>>
 VARIABLES t, e, f, done
 vars == <<t, e, f, done>>
-T == Templates[t]
+T == TemplateOf(t)
 P0 == Inst(T, Envs[e])
-Init == t \in 1..Len(Templates) /\ e \in 1..2 /\ done = FALSE /\ f \in {g \in Perms(Len(Templates[t])) : IsTopo(AsGraphOps(Inst(Templates[t], Envs[e])), g)}
+Init == t \in TemplateIds /\ e \in (IF t.k = "hand" THEN 1..2 ELSE {1}) /\ done = FALSE /\ f \in {g \in Perms(Len(TemplateOf(t))) : IsTopo(AsGraphOps(Inst(TemplateOf(t), Envs[e])), g)}
 Next == ~done /\ done' = TRUE /\ UNCHANGED <<t, e, f>>
 P == Permute(P0, f)
 Want == [p \in ParamsOf(T) |-> Envs[e][p]]
